@@ -303,15 +303,13 @@ func c02R2(p *Prog, r *Report) {
 			or := ph.Resolve(other)
 			sl, isSl := or.(*ast.SliceExpr)
 			okSlice := false
-			if isSl && objOf(info, sl.X) == ph.ParamObj(0) && sl.Low != nil && sl.High != nil {
-				if lo, isC := constInt(info, sl.Low); isC && lo == 9 {
-					if be, isB := ast.Unparen(sl.High).(*ast.BinaryExpr); isB && be.Op == token.ADD {
-						if k, isC := constInt(info, be.X); isC && k == 9 {
-							if lc, isL := ast.Unparen(be.Y).(*ast.CallExpr); isL && len(lc.Args) == 1 && objOf(info, lc.Args[0]) == reqSalt {
-								okSlice = true
-							}
-						}
-					}
+			if isSl && objOf(info, sl.X) == ph.ParamObj(0) && sl.Low != nil && sl.High != nil && reqSalt != nil {
+				// bounds compared after resolving locals and folding constants
+				lo := linOf(p, ph, sl.Low)
+				hi := normExpr(p, ph, sl.High)
+				want := "len(" + reqSalt.Name() + ")"
+				if len(lo) == 1 && lo[""] == 9 && (hi == "(9 + "+want+")" || hi == "("+want+" + 9)") {
+					okSlice = true
 				}
 			}
 			r.Check(okSlice, rule, "ss2022.ParseTCPResponseHeader:salt-field-position", p.posStr(c.Pos()), "compares requestSalt with header[9 : 9+len(requestSalt)]", "the salt comparison does not cover the whole request-salt field of the header")
@@ -332,7 +330,7 @@ func c02R2(p *Prog, r *Report) {
 			continue
 		}
 		isB0 := func(e ast.Expr) bool {
-			ix, ok := ast.Unparen(e).(*ast.IndexExpr)
+			ix, ok := ast.Unparen(ph.Resolve(e)).(*ast.IndexExpr)
 			if !ok || objOf(info, ix.X) != ph.ParamObj(0) {
 				return false
 			}
